@@ -759,6 +759,69 @@ theorem doGroup_shape (O : Oracle) (gid : GId) (a : Attrs) (data : List (Nat × 
   cases a.hasPre <;> cases a.updateNnps <;> cases a.hasPost <;> simp
 
 
+/-- destination array and destination particle index of a per-particle call -/
+def Event.particle? : Event → Option (Nat × Nat)
+  | .init _ d i | .loopNoSrc _ d i | .initPair _ d _ i | .loopAll _ d _ i _ | .loop _ d _ i _
+  | .postLoop _ d i => some (d, i)
+  | _ => none
+
+/-- per-particle calls concern destination `D` and an index of `rng` -/
+def InRange (D : Nat) (rng : List Nat) : Event → Prop :=
+  fun e => ∀ d i, e.particle? = some (d, i) → d = D ∧ i ∈ rng
+
+theorem ext_guardedLoop_mem {α : Type} {P : Event → Prop} (b : Bool) (l : List α)
+    (f : α → Hist → Hist) (hf : ∀ a ∈ l, ∀ h, Ext P h (f a h)) (h : Hist) :
+    Ext P h (guardedLoop b l f h) := by
+  unfold guardedLoop
+  cases b
+  · exact Ext.refl h
+  · exact ext_forEach l f hf h
+
+theorem inRange_of (D : Nat) (rng : List Nat) {i : Nat} (hi : i ∈ rng) (e : Event)
+    (he : e.particle? = some (D, i) ∨ e.particle? = none) : InRange D rng e := by
+  intro d j hj
+  rcases he with he | he
+  · rw [he] at hj
+    simp only [Option.some.injEq, Prod.mk.injEq] at hj
+    exact ⟨hj.1.symm, hj.2 ▸ hi⟩
+  · rw [he] at hj; cases hj
+
+theorem ext_doSource_range (O : Oracle) (D : Nat) (rng : List Nat) (sg : Nat × List Equation)
+    (h : Hist) : Ext (InRange D rng) h (doSource O D rng sg h) := by
+  unfold doSource
+  refine Ext.trans ?_ (ext_guardedLoop_mem _ _ _ ?_ _)
+  · refine ext_guardedLoop_mem _ _ _ ?_ h
+    intro i hi h
+    exact ext_callAll _ _ _ (fun e => inRange_of D rng hi _ (Or.inl rfl)) h
+  · intro i hi h
+    unfold srcParticle
+    simp only
+    refine Ext.trans ?_ (ext_guardedLoop _ _ _ ?_ _)
+    · exact ext_guardedIf _ _ (fun h' => ext_callAll _ _ _
+        (fun e => inRange_of D rng hi _ (Or.inl rfl)) h') h
+    · intro j h'
+      exact ext_callAll _ _ _ (fun e => inRange_of D rng hi _ (Or.inl rfl)) h'
+
+/-- every per-particle call made for a destination concerns that destination and an index of
+`range(D_START_IDX, NP_DEST)` as read when the destination was set up -/
+theorem ext_doDest_range (O : Oracle) (a : Attrs) (ddd : Nat × DestData) (h : Hist) :
+    Ext (InRange ddd.1 (destRange O h a ddd.1)) h (doDest O a ddd h) := by
+  unfold doDest
+  simp only
+  generalize destRange O h a ddd.1 = rng
+  have none_ok : ∀ e : Event, e.particle? = none → InRange ddd.1 rng e := by
+    intro e he d i hj; rw [he] at hj; cases hj
+  refine Ext.trans ?_ (ext_guardedIf _ _ (fun h' => ext_callAll _ _ _ (fun e => none_ok _ rfl) h') _)
+  refine Ext.trans ?_ (ext_guardedLoop_mem _ _ _
+    (fun i hi h' => ext_callAll _ _ _ (fun e => inRange_of _ rng hi _ (Or.inl rfl)) h') _)
+  refine Ext.trans ?_ (ext_forEach _ _ (fun sg _ h' => ext_doSource_range O _ rng sg h') _)
+  refine Ext.trans ?_ (ext_guardedLoop_mem _ _ _
+    (fun i hi h' => ext_callAll _ _ _ (fun e => inRange_of _ rng hi _ (Or.inl rfl)) h') _)
+  refine Ext.trans ?_ (ext_guardedLoop_mem _ _ _
+    (fun i hi h' => ext_callAll _ _ _ (fun e => inRange_of _ rng hi _ (Or.inl rfl)) h') _)
+  exact ext_callAll _ _ _ (fun e => none_ok _ rfl) h
+
+
 /-! ## Decidability of well-formedness and concrete programs for the non-vacuity examples -/
 
 instance (l : Leaf) : Decidable l.WF := by unfold Leaf.WF; infer_instance
